@@ -207,13 +207,20 @@ def run(run: core.Run) -> int:
     pool = core.Pool(jobs)
     chunk = 50
     chunks = [cases[i:i + chunk] for i in range(0, len(cases), chunk)]
+    from ..impl_sm import COMPILED_TEXTS
+    fixture_dir = os.path.join(core.REPO, "tests", "fixtures", "compiler", "macros_imports_test")
+    sources = [{"text": t} for t in COMPILED_TEXTS] + [{"file": os.path.join(fixture_dir, d, "main.exps")} for d in sorted(os.listdir(fixture_dir))
+                                                       if os.path.exists(os.path.join(fixture_dir, d, "main.exps"))]
+    ccases = [dict(src, fmode=fm, drop=dr) for src in sources for fm in ("dense", "dense1", "double", "shift") for dr in (0, 3, 2)]
     hists = [gen_history(run.rng, compiled) for _ in range(n // 3)]
     hchunks = [hists[i:i + chunk] for i in range(0, len(hists), chunk)]
     try:
         outs = pool.map("harness.impl_sm:run_cases", chunks, timeout=120)
         houts = pool.map("harness.impl_sm:run_histories", hchunks, timeout=120)
+        couts = pool.map("harness.impl_sm:run_compiled", [ccases], timeout=180)
     finally:
         pool.close()
+    cres: list[dict] = couts[0] if isinstance(couts[0], list) else [{"exc": "worker: " + json.dumps(couts[0])[:200]} for _ in ccases]
     hres: list[dict] = []
     for ch, o in zip(hchunks, houts):
         hres += o if isinstance(o, list) else [{"exc": "worker: " + json.dumps(o)[:200]} for _ in ch]
@@ -250,6 +257,19 @@ def run(run: core.Run) -> int:
             prev = [st[0] for st in h["steps"][:d["step"]]]
             run.violation(f"history_{d['op']}", f"after the operations {prev} on one source map object, {d['op']} does not act on the content the object has now "
                                                 f"(a fresh object with the same entries answers differently)", {"history": h, "impl": r})
+    # rewrite_offsets on the map objects the real compiler returns (entries may share objects there)
+    cstats = {"compiled_object_cases": len(ccases), "with_macro_entries": 0}
+    for cc, r in zip(ccases, cres):
+        if "exc" in r:
+            if "before" in r:     # the compile went through, the rewriting raised
+                n_viol += 1
+                run.violation("compiled_object_exception", f"rewrite_offsets on the compiler's own source map raised {r['exc']}", {"compiled": cc, "impl": r})
+            continue
+        cstats["with_macro_entries"] += bool(r["before"]["macros"])
+        fake = {"deser": r["before"], "eq": True, "eq_rev": True, "ne": False, "reser_same": True, "pretty_same": True, "rewrite": r["after"], "rewrite_deser": r["after"]}
+        for kind, what in oracle({"sm": r["before"], "f": r["f"]}, fake):
+            n_viol += 1
+            run.violation("compiled_object_" + kind, "on the source map object returned by the compiler: " + what, {"compiled": cc, "impl": r})
     # correspondence with the Lean model
     mism = 0
     lean_ok = prep["driver_ok"]
@@ -293,7 +313,7 @@ def run(run: core.Run) -> int:
         "evaluations": len(cases), "distinct_nontrivial": core.distinct(c for c in cases if c["sm"]["map"] or c["sm"]["macros"]),
         "rule": "random well-typed source maps (0-8 op entries, 0-4 macro entries, return addresses hitting surviving/dropped/absent/zero/out-of-range offsets) plus maps produced by the real compiler on the repo's macro fixtures; injective offset mappings: empty, total, dropping, compaction, non-monotone; non-trivial = at least one entry",
         "samples": cases[len(compiled):len(compiled) + 2] + cases[:1],
-        "generator_stats": stats, "history_stats": hstats, "correspondence_mismatches": mism, "oracle_violations": n_viol,
+        "generator_stats": stats, "history_stats": hstats, "compiled_object_stats": cstats, "correspondence_mismatches": mism, "oracle_violations": n_viol,
     })
     return run.finish("proof", cov, [
         "json.loads(json.dumps(v)) == v on ints/strings/None/lists/str-keyed dicts (stdlib)",
